@@ -60,6 +60,22 @@ def run (t : Tier) : Emit Unit := do
       let tot : TOTData := { descriptors := [], utcTime := days * 86400 + (sec : Int) }
       let (s, bs) := mkSection 0x73 false none { tot := some tot }
       emit "C13" (parseCase (Spec.unitEncode 0 [bs] 0) (some { pointerField := 0, sections := [s] }) "parse-TOT-march-1")
+  -- (1e) descriptor loops that need all 12 bits of their length inside tables: an EIT event and an SDT service with five
+  -- descriptors of 255 / 254 bytes, a NIT with a long network loop
+  for k in [0, 1, 2] do
+    let mut ds : List Descriptor := []
+    for i in [0:5] do
+      let body ← liftGen (randBytes (if i % 2 = 0 then 255 else 254))
+      ds := ds ++ [({ tag := 0x80 + i, length := body.length, userDefined := body } : Descriptor)]
+    let sh ← liftGen (genSyntaxHeader 7)
+    let st ← liftGen genUTC
+    let sec : PSISection × Bytes := match k with
+      | 0 => mkSection 0x50 false (some sh) { eit := some { events := [{ descriptors := ds, duration := 3600000000000, eventID := 1, hasFreeCSAMode := false, runningStatus := 4, startTime := st }],
+                                                            lastTableID := 0x50, originalNetworkID := 1, segmentLastSectionNumber := 0, serviceID := 7, transportStreamID := 2 } }
+      | 1 => mkSection 0x42 false (some sh) { sdt := some { originalNetworkID := 1, services := [{ descriptors := ds, hasEITPresentFollowing := true, hasEITSchedule := false, hasFreeCSAMode := false, runningStatus := 4, serviceID := 9 }], transportStreamID := 7 } }
+      | _ => mkSection 0x40 false (some sh) { nit := some { networkDescriptors := ds, networkID := 7, transportStreams := [] } }
+    let (s, bs) := sec
+    emit "C13" (parseCase (Spec.unitEncode 0 [bs] 0) (some { pointerField := 0, sections := [s] }) "parse-long-descriptor-loop-in-table")
   -- (1c) the writer with several PAT / PMT sections in one unit: every section carries its own CRC
   for _ in [0:10 * t.scale] do
     let n ← liftGen (randRange 2 4)
